@@ -329,6 +329,10 @@ mod worker {
             self.open_and_send_settings().await?;
 
             loop {
+                #[cfg(feature = "verif-hooks")]
+                crate::verif_hooks::WORKER_LOOP_ITERATIONS
+                    .fetch_add(1, std::sync::atomic::Ordering::Relaxed);
+
                 tokio::select! {
                     result = Self::accept_uni(&self.quic_connection,
                                               &ready_uni_h3_streams.0,
